@@ -65,3 +65,32 @@ Proof. vm_compute. reflexivity. Qed.
 
 Lemma w_acked : forall t, acked_of (w_hist t) = [wb1; wb3].
 Proof. reflexivity. Qed.
+
+(* ---------- concurrent bulks: splitting the locked unit ---------- *)
+Definition wd4 := Doc 4 [110; 111; 112; 113; 114; 115]%N [3]%N.
+Definition wb4 := Bulk [wd4] [204; 4; 4; 4; 4; 4; 4; 4; 4]%N 10 [214; 4; 4; 4]%N 30.
+Definition wcs := [wb4; wb1].            (* A = wb4 (larger docs block), B = wb1 *)
+Definition wdm' := dec_m_of wcs.
+Definition wdd' := dec_d_of wcs.
+Definition w_empty := WSt [] [] 0 0 [].
+
+(* A reserves its docs offset first, B's meta block reaches the meta file first *)
+Definition w_split := run_events wcs w_empty [EvDocs 0; EvDocs 1; EvMeta 1; EvMeta 0].
+Definition w_locked := run_events wcs w_empty (locked [0; 1]).
+
+Definition fetch_after_restart (w : wst) (id : N) : option fetched :=
+  match restart wdm' (Disk (w_docs w) (w_meta w)) with
+  | Ok (d, p, _) => Some (fetch wdd' d p id)
+  | _ => None
+  end.
+
+Lemma w_split_breaks :
+  meta_describes_docs (w_meta w_split) = false /\
+  fetch_after_restart w_split 1 = Some (Body (d_body wd4)).     (* B's ID returns A's bytes *)
+Proof. vm_compute. split; reflexivity. Qed.
+
+Lemma w_locked_fine :
+  meta_describes_docs (w_meta w_locked) = true /\
+  fetch_after_restart w_locked 1 = Some (Body (d_body wd1)) /\
+  fetch_after_restart w_locked 4 = Some (Body (d_body wd4)).
+Proof. vm_compute. repeat split; reflexivity. Qed.
